@@ -118,17 +118,27 @@ def doStep (c : Cfg) (s : State) (en : List Act) (a : Act) (log : List String) :
   | none => (none, log ++ ["model-stuck"])
   | some s' => (some s', log ++ [s!"{enStr en}{actLabel a}={whereStr s s' a} R{bit (s'.runningNow c)}"])
 
-def runChoices (c : Cfg) (parents : List Nat) (s : State) (choices : List Nat) (log : List String) : State × List String :=
+/-- a choice is an index into the enabled list, or the name of an actor (skipped when not enabled) -/
+inductive Choice where
+  | idx (n : Nat)
+  | label (l : String)
+
+def runChoices (c : Cfg) (parents : List Nat) (s : State) (choices : List Choice) (log : List String) : State × List String :=
   match choices with
   | [] => (s, log)
   | ch :: rest =>
     let en := enabledActs c s parents true
-    match en[ch % en.length]? with
-    | none => (s, log)
-    | some a =>
-      match doStep c s en a log with
-      | (some s', log') => runChoices c parents s' rest log'
-      | (none, log') => (s, log')
+    if en.isEmpty then (s, log)
+    else
+      let pick : Option Act := match ch with
+        | .idx n => en[n % en.length]?
+        | .label l => en.find? (fun a => actLabel a == l)
+      match pick with
+      | none => runChoices c parents s rest log
+      | some a =>
+        match doStep c s en a log with
+        | (some s', log') => runChoices c parents s' rest log'
+        | (none, log') => (s, log')
 
 def drain (c : Cfg) (parents : List Nat) (s : State) (fuel : Nat) (log : List String) : State × List String :=
   match fuel with
@@ -150,13 +160,13 @@ def blockedStr (s : State) : String :=
   ",".intercalate (ths ++ g "rg" (s.rg != .none && s.rg != .gone) (rgStr s.rg)
     ++ g "sd" (s.sd != .none && s.sd != .gone) (sdStr s.sd) ++ g "eh" (s.eh != .none && s.eh != .gone) (ehStr s.eh))
 
-def runCase (c : Cfg) (progs : List (List Op)) (choices : List Nat) : String :=
+def runCase (c : Cfg) (progs : List (List Op)) (choices : List Choice) : String :=
   let parents := parentsOf progs
   let (s1, log1) := runChoices c parents (init progs) choices []
   let (s2, log2) := drain c parents s1 600 log1
   " ; ".intercalate (log2 ++ [s!"final blocked=[{blockedStr s2}] log=[{logStr s2.log}]"])
 
-def parseSvc (args : List Sexp) : Option (Cfg × List (List Op) × List Nat) := do
+def parseSvc (args : List Sexp) : Option (Cfg × List (List Op) × List Choice) := do
   let mut variant : Bool × Bool × Bool := (true, true, true)
   for a in args do
     match a with
@@ -164,13 +174,16 @@ def parseSvc (args : List Sexp) : Option (Cfg × List (List Op) × List Nat) := 
     | _ => pure ()
   let mut cfg : Option Cfg := none
   let mut progs : List (List Op) := []
-  let mut choices : List Nat := []
+  let mut choices : List Choice := []
   for a in args do
     match a with
     | .list (.atom "cfg" :: _) => cfg := cfgOf variant a
     | .list (.atom "variant" :: _) => pure ()
     | .list (.atom "thread" :: ops) => progs := progs ++ [← ops.mapM opOf]
-    | .list (.atom "choices" :: cs) => choices := cs.filterMap Sexp.nat?
+    | .list (.atom "choices" :: cs) =>
+      choices := cs.filterMap (fun x => match x with
+        | .atom a => some (match a.toNat? with | some n => Choice.idx n | none => Choice.label a)
+        | _ => none)
     | _ => none
   pure (← cfg, progs, choices)
 
